@@ -105,14 +105,8 @@ def signMag (s : Str) : Option (Bool × Nat) :=
   match s with
   | [] => none
   | c :: cs =>
-    if isMinus c then
-      (match cs with
-       | [] => none
-       | _ => (digitsVal cs 0).map fun m => (true, m))
-    else if c = '+' then
-      (match cs with
-       | [] => none
-       | _ => (digitsVal cs 0).map fun m => (false, m))
+    if isMinus c then (if cs.isEmpty then none else (digitsVal cs 0).map fun m => (true, m))
+    else if c = '+' then (if cs.isEmpty then none else (digitsVal cs 0).map fun m => (false, m))
     else (digitsVal (c :: cs) 0).map fun m => (false, m)
 
 def trimStart (s : Str) : Str := s.dropWhile isSpace
@@ -167,24 +161,26 @@ def parseIntSpec (bits : Nat) (signed : Bool) (s : Str) : Option Int :=
 
 /-- a natural number in strict lexical form (`digits`), no bound -/
 def parseNat (s : Str) : Option Nat :=
-  match s with
-  | [] => none
-  | _ => digitsVal s 0
+  if s.isEmpty then none else digitsVal s 0
 
 /-! ## Booleans -/
 
 /-- `parseBoolean`: exactly `1`, `true`, `0`, `false` -/
 def parseBoolCode (s : Str) : Option Bool :=
-  if s = "1".toList ∨ s = "true".toList then some true
-  else if s = "0".toList ∨ s = "false".toList then some false
+  if s = ['1'] ∨ s = ['t', 'r', 'u', 'e'] then some true
+  else if s = ['0'] ∨ s = ['f', 'a', 'l', 's', 'e'] then some false
   else none
 
 /-- `serializeBoolean` -/
-def boolToStr (b : Bool) : Str := if b then "true".toList else "false".toList
+def boolToStr (b : Bool) : Str := if b then ['t', 'r', 'u', 'e'] else ['f', 'a', 'l', 's', 'e']
 
 /-! ## Base64 -/
 
-def b64alphabet : Str := "ABCDEFGHIJKLMNOPQRSTUVWXYZabcdefghijklmnopqrstuvwxyz0123456789+/".toList
+def b64alphabet : Str :=
+  ['A', 'B', 'C', 'D', 'E', 'F', 'G', 'H', 'I', 'J', 'K', 'L', 'M', 'N', 'O', 'P', 'Q', 'R', 'S', 'T',
+  'U', 'V', 'W', 'X', 'Y', 'Z', 'a', 'b', 'c', 'd', 'e', 'f', 'g', 'h', 'i', 'j', 'k', 'l', 'm', 'n',
+  'o', 'p', 'q', 'r', 's', 't', 'u', 'v', 'w', 'x', 'y', 'z', '0', '1', '2', '3', '4', '5', '6', '7',
+  '8', '9', '+', '/']
 
 /-- the character for a 6-bit value -/
 def b64char (n : Nat) : Char := b64alphabet.getD n 'A'
